@@ -263,6 +263,15 @@ Section Run.
       + apply derived_add_many; [apply inv_derived; assumption|].
         intros i Hi. left. apply in_map_iff in Hi. destruct Hi as [u [<- Hu]]. eauto.
       + apply (log0_keep s _ St0). apply inv_log0; assumption.
+    - (* one batch of the start URLs *)
+      destruct (st_mode s) eqn:M; try discriminate. destruct ((0 <? n) && (st_batch s + n <=? length starts))%nat eqn:G; [|discriminate]. inversion H; subst s'; clear H.
+      constructor; cbn.
+      + intros r' Hr'. apply add_many_In in Hr'. destruct Hr' as [Hr' | [i0 [_ ->]]]; [now apply (inv_no_error s J) | discriminate].
+      + intros r' Hr' S'. apply add_many_In in Hr'. destruct Hr' as [Hr' | [i0 [_ ->]]]; [now apply (inv_tries0 s J) | reflexivity].
+      + intros r' Hr' S'. apply add_many_In in Hr'. destruct Hr' as [Hr' | [i0 [_ ->]]]; [now apply (inv_tries1 s J) | discriminate].
+      + apply derived_add_many; [apply inv_derived; assumption|].
+        intros i0 Hi. left. apply in_map_iff in Hi. destruct Hi as [u [<- Hu]]. apply batch_incl in Hu. eauto.
+      + apply (log0_keep s _ St0). apply inv_log0; assumption.
   Qed.
 
   Lemma reach_Inv2 s : reach s -> Inv2 s.
